@@ -24,4 +24,6 @@ for nm in names:
     out[nm] = r
     print(nm, r, 'CAUGHT' if all(x[1] == 1 for x in r) else 'MISSED', flush=True)
 json.dump(out, open('/tmp/regress.json', 'w'), indent=1)
+# the runs above rewrote evidence/ from MUTATED trees: put the committed evidence (unchanged tree) back
+subprocess.run(['git', '-C', '/verif', 'checkout', '--', 'evidence'])
 print('missed:', [k for k, v in out.items() if not (isinstance(v, list) and all(x[1] == 1 for x in v))])
